@@ -167,7 +167,31 @@ CHECKS = {
 NOT_YET = 'check not built yet in this round (planned, see DESIGN.md section 3)'
 
 
+# additions of the build-on session (see DESIGN.md sections 9.7-9.12), appended to the level texts
+EXTRA = {
+    'C01': ' Points are also handed over as Jacobian representatives with chosen z (1, -1, random and structured values such as 1+tu, u, the value whose limbs read 1), converted by the library and paired through all three entry points.',
+    'C02': ' Products whose word-serial Montgomery reduction hits an exact carry coincidence (T[i+n]+carry in {2^w-2..2^w+1}, with/without pending meta-carry, every round, w = 64 and 32) are constructed by lib/redcsolve.py; operands made of extreme words; the baseline x86 routine family runs in the quick tier.',
+    'C03': ' Reduction inputs and products with exact carry coincidences (lib/redcsolve.py) and special-word operands run on every back end; the tower, group-law, scalar-multiplication, pairing, GT, encoding, hashing, WKD-IBE and LQ-IBE workloads are diffed across prod / baseline x86 / portable-64 / portable-32 in the quick tier; the AArch64 and Thumb-1 interpreters cover the integer subset a rewrite plausibly uses (csel family, branches, shifts), so a rewritten routine is judged rather than declared uncovered.',
+    'C05': ' Representatives include structured z values (-1, 2, 1/2, R, 2^64, 1+tu, 1+-u, u, tu, t, t+u, the value whose limbs read 1) through every operation and relation; output objects start as junk / a normalised point / the identity / another z by turns.',
+    'C07': ' Directed digit vectors (all zero, single digit) and sampler streams whose accepted draw is y = 0 or whose first draw per digit is exactly |x|, |x|-1, |x|+1, 2^64-1 or whose candidate is exactly r-1, r, r+1.',
+    'C08': ' Lists of 31..65 and 255..257 (thorough ..300) affine pairs, prepared pairs and both; one prepared object prepared from a related point (same, negated, endomorphism images, identity) and then from Q must equal a fresh one.',
+    'C09': ' Destinations start dirty but valid (zero / identity flag with arbitrary coordinates / another point); twist points whose y has a zero component exercise the second arm of the sort rule; points of isomorphic curves exercise the curve test separately from the subgroup test.',
+    'C10': ' Draws exactly equal to the modulus and its neighbours for every sampler; cofactor-torsion abscissas; consecutive identity derivations from related hashes (shared prefixes / suffixes).',
+    'C11': ' Slot counts 33, 65, 257 (thorough also 130); hidden entries carry hostile id bits; fresh output keys start dirty (foreign valid points, wrong slot count, opposite signature flag, or 0xA5); directed adjustments that only toggle the omit-from-keys flag.',
+    'C12': ' Ciphertext lists carry the omit-from-keys flag on value entries (it has no meaning there); documented adjustments that hide a fixed slot must stop the key from opening ciphertexts with that slot set.',
+    'C13': ' Hierarchies with and without signature support; verify lists with flagged value entries; every precomputed input arrives by one of three routes (direct / adjusted from another list / adjusted away and back).',
+    'C14': ' Value changes whose difference is 2^k + small for every k; consumers of precomputed values (encrypt_precomputed, sign_precomputed, verify_precomputed, resamplekey) receive them through adjust chains.',
+    'C15': ' Destinations are dirty and reused (A, B with one invalid element at each position, intact B); equality covers hsig/bsig of signature-less objects (genuine defect fixed in /repo 5e1b5e0); identity-slot corruptions (sort bit, payload bit, other form).',
+    'C16': ' Degenerate masters (0, r, 2r, 2^256-1), all-zero encryption randomness and torsion-point identity hashes are directed cases; the hash callback may re-enter the library.',
+    'C18': ' Second-operand special values are paired with first-operand special values through an index coprime to every period; exponents 0, 1, 5, |x|-1, 2^64; the 32-bit-word build runs in the quick tier.',
+    'C19': ' Sign / verify / encrypt rows use trial-dependent key patterns (fixed / free / hidden per slot) and extension lists; the pairing_sum row varies (affine, prepared) counts over {0,1,2}^2 incl. the empty list with NULL arrays.',
+}
+
+
 def main():
+    for k, v in EXTRA.items():
+        if not CHECKS[k]['text'].endswith(v):
+            CHECKS[k]['text'] = CHECKS[k]['text'] + v
     props = [json.loads(l)['id'] for l in open(os.path.join(HERE, 'properties.jsonl'))]
     checks = []
     for pid in props:
